@@ -322,6 +322,14 @@ example : CompatAll [false, true, true, false, true] (allItems sample) := by dec
 example : (readVars true (renderProg sample) 0 [false, true, true, false, true]).vals =
     [.num [53], .str [97, 44, 58, 98], .str [99, 32, 100], .num [], .str []] := by decide
 example : restore (lineTable 0 sample) (some 20) = .ok 32 := by decide
+/-- the hypotheses of `refused_item_is_read_next` hold on the sample program with the fourth variable (a numeric one on
+    a numeric item) refused; the refused READ reports Overflow and the next READ gets that fourth item -/
+example : CompatAll ([false, true, true] ++ [false]) (allItems sample) ∧
+    (readVarsR true (renderProg sample) 0 [(false, none), (true, none), (true, none), (false, some 6), (true, none)]).err
+      = some (6, none) ∧
+    (readVars true (renderProg sample)
+      (readVarsR true (renderProg sample) 0 [(false, none), (true, none), (true, none), (false, some 6), (true, none)]).pos
+      [false]).vals = [specVal false (allItems sample)[3]] := by decide
 example : (readVars true (renderProg sample) 32 [true]).vals = [.str []] := by decide
 example : restore (lineTable 0 sample) (some 25) = .error 8 := by decide
 example : ((allItems sample)[1]?.map Item.nonNum) = some true := by decide
@@ -373,6 +381,62 @@ theorem refused_read_keeps_item (fixed : Bool) (code : Bytes) (pos : Nat) (ts : 
     | err e0 a ep =>
       rw [he] at hok
       simp at hok
+
+/-- a run of READs without error splits at any point: reading `ts ++ us` is reading `ts`, then `us` from where that ended -/
+theorem readVars_append (fixed : Bool) (code : Bytes) (pos : Nat) (ts us : List Bool)
+    (h : (readVars fixed code pos ts).err = none) :
+    readVars fixed code pos (ts ++ us) =
+      ⟨(readVars fixed code pos ts).vals ++ (readVars fixed code (readVars fixed code pos ts).pos us).vals,
+       (readVars fixed code (readVars fixed code pos ts).pos us).err,
+       (readVars fixed code (readVars fixed code pos ts).pos us).pos⟩ := by
+  induction ts generalizing pos with
+  | nil => simp [readVars]
+  | cons t ts ih =>
+    simp only [readVars] at h
+    simp only [List.cons_append, readVars]
+    cases he : readEntry fixed code pos t with
+    | ok v p0 =>
+      rw [he] at h
+      simp only at h
+      simp only [ih p0 h, List.cons_append]
+    | err e0 a ep =>
+      rw [he] at h
+      simp at h
+
+theorem compatAll_prefix : ∀ (ts us : List Bool) (its : List Item), CompatAll (ts ++ us) its → CompatAll ts its
+  | [], _, _, _ => trivial
+  | _ :: _, _, [], h => h
+  | _ :: ts, us, _ :: its, h => ⟨h.1, compatAll_prefix ts us its h.2⟩
+
+/-- **refused_item_is_read_next.**  On every well-formed program: if the READs so far took the first `ts.length` items
+    and the next variable (compatible with its item) is refused by the store, then that READ assigns exactly the items
+    before it and raises the store's error at the READ statement, and the READ after it still receives item number
+    `ts.length` — the refused item is neither lost nor skipped. -/
+theorem refused_item_is_read_next (p : Prog) (hwf : progWf p = true) (ts : List Bool) (t : Bool) (e : Nat)
+    (rest : List (Bool × Option Nat)) (hc : CompatAll (ts ++ [t]) (allItems p)) :
+    let out := readVarsR true (renderProg p) 0 (ts.map (fun t => (t, none)) ++ (t, some e) :: rest)
+    out.vals = List.zipWith specVal ts (allItems p) ∧ out.err = some (e, none) ∧
+    (readVars true (renderProg p) out.pos [t]).err = none ∧
+    (List.zipWith specVal ts (allItems p)) ++ (readVars true (renderProg p) out.pos [t]).vals
+      = List.zipWith specVal (ts ++ [t]) (allItems p) := by
+  have h1 := read_order p hwf ts (compatAll_prefix ts [t] _ hc)
+  have h2 := read_order p hwf (ts ++ [t]) hc
+  rw [readVars_append true (renderProg p) 0 ts [t] h1.2] at h2
+  simp only at h2
+  -- the item of the refused variable can be read
+  have hitem : ∃ v p', readEntry true (renderProg p) (readVars true (renderProg p) 0 ts).pos t = .ok v p' := by
+    have := h2.2
+    simp only [readVars] at this
+    cases he : readEntry true (renderProg p) (readVars true (renderProg p) 0 ts).pos t with
+    | ok v p' => exact ⟨v, p', rfl⟩
+    | err e0 a ep => rw [he] at this; simp at this
+  obtain ⟨v, p', hitem⟩ := hitem
+  have h3 := refused_read_keeps_item true (renderProg p) 0 ts t e rest v p' h1.2 hitem
+  simp only at h3
+  obtain ⟨hv, he, hp, -⟩ := h3
+  refine ⟨by rw [hv, h1.1], he, ?_, ?_⟩
+  · rw [hp]; exact h2.2
+  · rw [hp, ← h1.1]; exact h2.1
 
 /-- non-vacuity, and the contrast with a successful READ, on a concrete program: `10 DATA 40000,7` —
     READ into a refused (`%`) variable leaves the pointer at 0 so that the next READ still gets `40000`;
